@@ -272,6 +272,27 @@ def remove(rc):
         rc.fail(f, f.node, "children must be looked up before the node leaves the graph", construct="order")
 
 
+@rule("C15.onecpd", "add_cpds never leaves two CPDs for the same variable (a new CPD replaces the previous one), in every model class", floor=2)
+def onecpd(rc):
+    """get_cpds(node) returns the first match and check_model / inference read every stored CPD: a second CPD for a variable is either ignored or used twice.
+    Every add_cpds that stores into self.cpds must first look for a CPD of the same variable (sibling implementations judged by one rule)."""
+    repo = rc.repo
+    n = 0
+    for rel, cname in ((BN, "BayesianNetwork"), (DBN, "DynamicBayesianNetwork")):
+        f = repo.func(rel, f"{cname}.add_cpds")
+        n += 1
+        stores = [c for c in repo.calls_in(f) if call_name(c) in ("append", "extend", "insert") and norm(c.func.value) == "self.cpds"]
+        stores += [x for x in walk_no_nested(f.node) if isinstance(x, ast.AugAssign) and norm(x.target) == "self.cpds"]
+        looks = [x for x in ast.walk(f.node) if isinstance(x, ast.Compare) and isinstance(x.ops[0], ast.Eq) and ".variable" in norm(x.left) and ".variable" in norm(x.comparators[0])]
+        rc.ob(f"{cname}.add_cpds: stores {[norm(x, 50) for x in stores]}; looks for an existing CPD of the same variable: {bool(looks)}")
+        if stores and not looks:
+            rc.fail(f, stores[0], f"{cname}.add_cpds appends to self.cpds without looking for an existing CPD of the same variable: adding a CPD for a node that already has one leaves two "
+                    "(get_cpds keeps answering with the old one)", construct=f"{cname}.add_cpds duplicates")
+        for x in stores:
+            if call_name(x) == "extend" if isinstance(x, ast.Call) else True:
+                rc.fail(f, x, f"{cname}.add_cpds bulk-stores the new CPDs (`{norm(x, 50)}`): duplicates within the call and against stored CPDs are kept", construct=f"{cname}.add_cpds bulk store")
+
+
 @rule("C15.copy", "copy() of model classes shares no in-place-mutated container and no CPD/factor object with the original", floor=5)
 def copy(rc):
     repo = rc.repo
@@ -310,6 +331,9 @@ def defuse(rc):
     _sh.defuse_rule(rc, _sh.anchor_files("C15"))
 
 MUTANTS = [
+    dict(kind="break", name="dbn-add-cpds-extends", file=DBN, expect="C15.onecpd",
+         old="        for cpd in cpds:\n            for index, prev_cpd in enumerate(self.cpds):\n                if prev_cpd.variable == cpd.variable:\n                    self.cpds[index] = cpd\n                    break\n            else:\n                self.cpds.append(cpd)\n",
+         new="        self.cpds.extend(cpds)\n"),
     dict(kind="break", name="dag-copy-loses-latents", file=DAGF, expect="C15.copy",
          old="        if not as_view:\n            dag.latents = set(self.latents)\n", new=""),
     dict(kind="break", name="markov-copy-loses-latents", file=MN, expect="C15.copy",
